@@ -21,6 +21,8 @@ structure Sys where
   /-- ghost history: (voter, term, candidate, the voter's log when it recorded the vote,
       whether an election of that term had already been won at that moment) -/
   voteLogs : List (Nat × Nat × Nat × List Entry × Bool) := []
+  /-- ghost: the log a candidate held when it started its election of a term (term, node) -/
+  startLog : Nat → Nat → List Entry := fun _ _ => []
 
 inductive Step where
   | timeout (i : Nat)
@@ -65,7 +67,10 @@ def setNode (s : Sys) (i : Nat) (nd' : Node) (nd : Node) (msgs : List (Nat × Na
                else s.elected,
     elog := if nd.role ≠ .leader ∧ nd'.role = .leader then
               (fun t => if t = nd'.term then nd'.log else s.elog t) else s.elog,
-    voteLogs := s.voteLogs ++ voteLogOf s i nd nd' }
+    voteLogs := s.voteLogs ++ voteLogOf s i nd nd',
+    startLog := if nd'.role = .candidate ∧ nd.term < nd'.term then
+                  (fun t j => if t = nd'.term ∧ j = i then nd.log else s.startLog t j)
+                else s.startLog }
 
 def sysStep (c : Config) (s : Sys) : Step → Sys
   | .timeout i =>
